@@ -429,6 +429,21 @@ def _run_case_in(case, d):
             os.chown(p, UNPRIV, UNPRIV)
     before = snapshot(out_path)
     kw = dict(user=UNPRIV, group=UNPRIV, extra_groups=[]) if unpriv else {}
+    # Inherited process environment (a history of the invoking process, not of wild): SIGCHLD
+    # ignored by the invoker survives execve, and makes waitpid() on the forked worker fail with
+    # ECHILD; closed standard descriptors make the fork pipe land on fds 0-2.
+    penv = case.get("penv")
+    if penv == "sigchld-ignored":
+        import signal as _signal
+        kw["preexec_fn"] = lambda: _signal.signal(_signal.SIGCHLD, _signal.SIG_IGN)
+    elif penv == "stdio-closed":
+        def _close_stdio():
+            for fd in (0, 1, 2):
+                try:
+                    os.close(fd)
+                except OSError:
+                    pass
+        kw["preexec_fn"] = _close_stdio
     r, w = os.pipe()
     t0 = time.time()
     p = subprocess.Popen(cmd, cwd=d, env=env, stdin=subprocess.DEVNULL, stdout=subprocess.PIPE,
@@ -615,8 +630,9 @@ def cfg_key(c):
 
 
 def cfg_name(c):
-    return "%s/%s/t%d/%s/%s" % (c["prog"], "fork" if c["fork"] else "nofork", c["threads"],
-                                c["wmode"], c["prior"])
+    return "%s/%s/t%d/%s/%s%s" % (c["prog"], "fork" if c["fork"] else "nofork", c["threads"],
+                                  c["wmode"], c["prior"],
+                                  "/" + c["penv"] if c.get("penv") else "")
 
 
 def key_name(k):
